@@ -4,7 +4,7 @@
 From Coq Require Import Extraction ExtrOcamlBasic.
 From V.Lib Require Import Bytes Base64.
 From V.Lib Require Import NetAddr.
-From V.Model Require Import Signed Cookies CookieStore Jar Csrf Ticket Bypass Authz Headers Redirect.
+From V.Model Require Import Signed Cookies CookieStore Jar Csrf Ticket Bypass Authz Headers Redirect SignOut.
 Extraction Blacklist String List Nat Bytes Int Char Array Buffer Hashtbl Printf Sx Conv Adapters Driver.
 Set Extraction Optimize.
 Separate Extraction
@@ -21,4 +21,5 @@ Separate Extraction
   Bypass.parse_route Bypass.is_allowed_route Bypass.is_allowed_request Bypass.build_set Bypass.set_has Bypass.canonical Bypass.is_trusted_ip Bypass.request_path
   Authz.email_valid Authz.auth_only_authorize Authz.is_endpoint_allowed Authz.get_authenticated_session Authz.authorize Authz.split_host_port_lax
   Headers.request_headers Headers.response_headers Headers.hget Headers.canon
-  Redirect.is_valid_redirect Redirect.get_redirect Redirect.callback_redirect Redirect.oauth_redirect_uri Redirect.browser_same_host Redirect.get_request_host.
+  Redirect.is_valid_redirect Redirect.get_redirect Redirect.callback_redirect Redirect.oauth_redirect_uri Redirect.browser_same_host Redirect.get_request_host
+  SignOut.sign_out_ticket_store SignOut.sign_out_cookie_store SignOut.apply_op SignOut.kv_get.
